@@ -1305,3 +1305,154 @@ Proof.
       * apply R3; auto. apply in_seq. lia.
 Qed.
 End Closure.
+
+(* ------------------------------------------------------------------ *)
+(* hwloc__find_groups_by_min_distance (accuracy 0): every group is     *)
+(* connected through minimal-distance edges (both variants of the scan) *)
+(* ------------------------------------------------------------------ *)
+From Coq Require Import Relations.Relation_Operators.
+
+Section Groups.
+Variable nb : nat.
+Variable v : list N.
+Variable minv : N.
+Variable fixg : bool.
+
+Definition min_edge (j k : nat) : Prop := vget v (j * nb + k) = minv.
+Definition min_conn : nat -> nat -> Prop := clos_refl_sym_trans nat min_edge.
+
+Lemma nth_upd_cases {A} (l : list A) a k x d :
+  nth a (upd l k x) d = if (a =? k)%nat && (k <? length l)%nat then x else nth a l d.
+Proof.
+  destruct (Nat.eqb_spec a k) as [->|Hne]; simpl.
+  - destruct (Nat.ltb_spec k (length l)).
+    + apply nth_upd_same; auto.
+    + rewrite !nth_overflow; auto. rewrite upd_length; auto.
+  - apply nth_upd_other; auto.
+Qed.
+
+(* while group [gid] grows from seed [i] *)
+Record growing (gid i : nat) (gids : list nat) (size : nat) : Prop := {
+  g_seed : forall a, nth a gids O = gid -> min_conn i a;
+  g_other : forall a b, nth a gids O = nth b gids O -> nth a gids O <> O -> nth a gids O <> gid -> min_conn a b;
+  g_le : forall a, (nth a gids O <= gid)%nat;
+  g_size : (1 <= size)%nat /\ ((forall a, a <> i -> nth a gids O <> gid) \/ (2 <= size)%nat)
+}.
+
+Lemma scan_k_growing gid i j : gid <> O ->
+  forall ks gids size nff, growing gid i gids size -> nth j gids O = gid ->
+  let '(gids', size', _) := scan_k fixg ks nb j v minv gid (gids, size, nff) in
+  growing gid i gids' size' /\ nth j gids' O = gid.
+Proof.
+  intros Hg. induction ks as [|k ks IH]; intros gids size nff G Hj; simpl; auto.
+  destruct ((nth k gids O =? 0)%nat && (vget v (j * nb + k) =? minv)%N) eqn:E; [|apply IH; auto].
+  apply andb_true_iff in E as [E1 E2]. apply Nat.eqb_eq in E1. apply N.eqb_eq in E2.
+  apply IH.
+  - destruct G as [G1 G2 G3 G4]. constructor.
+    + intros a Ha. rewrite nth_upd_cases in Ha.
+      destruct ((a =? k)%nat && (k <? length gids)%nat) eqn:Ek; [|auto].
+      apply andb_true_iff in Ek as [Ek _]. apply Nat.eqb_eq in Ek. subst a.
+      apply rst_trans with j; [apply G1; auto|apply rst_step; exact E2].
+    + intros a b Hab Hn0 Hng. rewrite !nth_upd_cases in *.
+      destruct ((a =? k)%nat && (k <? length gids)%nat); [congruence|].
+      destruct ((b =? k)%nat && (k <? length gids)%nat); [congruence|]. apply G2; auto.
+    + intros a. rewrite nth_upd_cases. destruct (_ && _); auto.
+    + split; [lia|]. right. lia.
+  - rewrite nth_upd_cases. destruct (_ && _); auto.
+Qed.
+
+Lemma scan_j_growing gid i : gid <> O ->
+  forall js gids size nff, growing gid i gids size ->
+  let '(gids', size', _) := scan_j fixg js nb v minv gid (gids, size, nff) in growing gid i gids' size'.
+Proof.
+  intros Hg. induction js as [|j js IH]; intros gids size nff G; simpl; auto.
+  destruct (Nat.eqb_spec (nth j gids O) gid) as [Ej|Ej]; [|apply IH; auto].
+  assert (H := scan_k_growing gid i j Hg (seq 0 nb) gids size nff G Ej).
+  destruct (scan_k fixg (seq 0 nb) nb j v minv gid (gids, size, nff)) as [[g' s'] n'].
+  destruct H as [H _]. apply IH; auto.
+Qed.
+
+Lemma grow_growing gid i : gid <> O ->
+  forall fuel ff gids size gids' size', growing gid i gids size ->
+  grow fixg fuel nb v minv gid ff gids size = Some (gids', size') -> growing gid i gids' size'.
+Proof.
+  intros Hg. induction fuel as [|f IH]; intros ff gids size gids' size' G H; simpl in H; [discriminate|].
+  assert (S := scan_j_growing gid i Hg (seq ff (nb - ff)) gids size None G).
+  destruct (scan_j fixg (seq ff (nb - ff)) nb v minv gid (gids, size, None)) as [[g1 s1] n1].
+  destruct n1 as [k|].
+  - eapply IH; eauto.
+  - inversion H; subst; auto.
+Qed.
+
+(* between two seeds *)
+Definition grouped (gid : nat) (gids : list nat) : Prop :=
+  (forall a b, nth a gids O = nth b gids O -> nth a gids O <> O -> min_conn a b) /\
+  (forall a, (nth a gids O < gid)%nat).
+
+Lemma groups_i_grouped : forall is gids gid skipped gids' gid' skipped',
+  (1 <= gid)%nat -> grouped gid gids ->
+  groups_i fixg is nb v minv (gids, gid, skipped) = Some (gids', gid', skipped') -> grouped gid' gids'.
+Proof.
+  induction is as [|i is IH]; intros gids gid skipped gids' gid' skipped' Hg1 [P F] H; cbn [groups_i] in H.
+  - inversion H; subst. split; auto.
+  - destruct (Nat.eqb_spec (nth i gids O) 0) as [E0|E0]; cbn [negb] in H; [|eapply IH; eauto; split; auto].
+    assert (Hg : gid <> O) by lia.
+    assert (G0 : growing gid i (upd gids i gid) 1).
+    { constructor.
+      - intros a Ha. rewrite nth_upd_cases in Ha.
+        destruct ((a =? i)%nat && (i <? length gids)%nat) eqn:Ek.
+        + apply andb_true_iff in Ek as [Ek _]. apply Nat.eqb_eq in Ek. subst. apply rst_refl.
+        + specialize (F a). lia.
+      - intros a b Hab Hn0 Hng. rewrite !nth_upd_cases in *.
+        destruct ((a =? i)%nat && (i <? length gids)%nat); [congruence|].
+        destruct ((b =? i)%nat && (i <? length gids)%nat); [congruence|]. apply P; auto.
+      - intros a. rewrite nth_upd_cases. destruct (_ && _); auto. specialize (F a). lia.
+      - split; [lia|]. left. intros a Ha. rewrite nth_upd_cases.
+        destruct (Nat.eqb_spec a i); [congruence|]. simpl. specialize (F a). lia. }
+    destruct (grow fixg (S nb) nb v minv gid i (upd gids i gid) 1) as [[g1 s1]|] eqn:Eg; [|discriminate H].
+    assert (G := grow_growing gid i Hg _ _ _ _ _ _ G0 Eg). destruct G as [G1 G2 G3 G4].
+    destruct (Nat.eqb_spec s1 1) as [Es|Es].
+    + (* useless group cancelled *)
+      eapply IH; [exact Hg1| |exact H]. subst s1. destruct G4 as [_ [G4|G4]]; [|lia].
+      split.
+      * intros a b Hab Hn0. rewrite !nth_upd_cases in *.
+        destruct ((a =? i)%nat && (i <? length g1)%nat) eqn:Ea; [congruence|].
+        destruct ((b =? i)%nat && (i <? length g1)%nat) eqn:Eb; [congruence|].
+        destruct (Nat.eq_dec (nth a g1 O) gid) as [Eq|Ne].
+        -- apply rst_trans with i; [apply rst_sym, G1; auto|apply G1; congruence].
+        -- apply G2; auto.
+      * intros a. rewrite nth_upd_cases.
+        destruct ((a =? i)%nat && (i <? length g1)%nat) eqn:Ea; [lia|].
+        destruct (Nat.eq_dec a i) as [->|Hne].
+        -- (* i out of range: its entry reads 0 *)
+           rewrite Nat.eqb_refl in Ea. simpl in Ea. apply Nat.ltb_ge in Ea. rewrite nth_overflow by auto. lia.
+        -- specialize (G4 a Hne). specialize (G3 a). lia.
+    + (* group kept, next id *)
+      eapply IH; [|  |exact H]; [lia|]. split.
+      * intros a b Hab Hn0.
+        destruct (Nat.eq_dec (nth a g1 O) gid) as [Eq|Ne].
+        -- apply rst_trans with i; [apply rst_sym, G1; auto|apply G1; congruence].
+        -- apply G2; auto.
+      * intros a. specialize (G3 a). lia.
+Qed.
+
+Lemma nth_repeat_O n a : nth a (repeat O n) O = O.
+Proof. revert a; induction n; intros [|a]; simpl; auto. Qed.
+
+End Groups.
+
+(* every group returned is connected by minimal-distance edges *)
+Lemma find_groups_sound fixg nb v ng ids :
+  find_groups_gen fixg nb v = Some (ng, ids) ->
+  forall a b, nth a ids O = nth b ids O -> nth a ids O <> O -> min_conn nb v (min_distance nb v) a b.
+Proof.
+  unfold find_groups_gen. destruct (min_distance nb v =? UINT64_MAX)%N.
+  - intros H; inversion H; subst. intros a b _ Hn. rewrite nth_repeat_O in Hn. congruence.
+  - destruct (groups_i fixg (seq 0 nb) nb v (min_distance nb v) (repeat O nb, 1%nat, O)) as [[[g gid] sk]|] eqn:E; [|discriminate].
+    assert (G : grouped nb v (min_distance nb v) gid g).
+    { eapply groups_i_grouped; [| |exact E]; [lia|]. split.
+      - intros a b _ Hn. rewrite nth_repeat_O in Hn. congruence.
+      - intros a. rewrite nth_repeat_O. lia. }
+    destruct G as [P _].
+    destruct ((gid =? 2)%nat && (sk =? 0)%nat); intros H; inversion H; subst; auto.
+Qed.
